@@ -775,3 +775,26 @@ Definition new_schema (nz : bool) (idname : bytes) (fs : list (bytes * ftype)) (
             match l with [] => [] | (nm, t) :: r => mkf nm t n :: go (n + 1) r end) 3 fs)
         ixs (3 + N.of_nat (length fs)) nz.
 Definition init (sch : schema) : state := mkst sch [].
+
+(* ------------------------------------------------------------------------------------------ *)
+(* predicates used by the theorems                                                             *)
+Fixpoint pairwise {A} (p : A -> A -> bool) (l : list A) : bool :=
+  match l with [] => true | x :: r => forallb (p x) r && pairwise p r end.
+
+Definition row_tuple (sch : schema) (cols : list bytes) (r : lrow) : list cv :=
+  tuple_of sch cols (l_id r) (l_row r).
+
+(* no two live documents share the tuple of a unique index *)
+Definition uniq_okb (st : state) : bool :=
+  let sch := st_sch st in
+  forallb (fun ix =>
+    negb (ix_unique ix) ||
+    pairwise (fun a b => negb (tuple_eqb (s_nz sch) (row_tuple sch (ix_cols ix) a) (row_tuple sch (ix_cols ix) b)))
+             (lives (st_docs st)))
+    (s_indexes sch).
+
+Definition insert_or_read (o : op) : bool :=
+  match o with
+  | OInsert _ | OSearch _ _ | OCount _ _ | OGet _ | OAudit _ _ _ _ => true
+  | _ => false
+  end.
